@@ -44,6 +44,8 @@ pub fn main<G: ParRig>() {
         let args = Args::parse();
         match args.cmd.as_str() {
             "seq" => seq_main::<G>(&args),
+            "deser" => deser_main::<G>(&args),
+            "faults" => faults_main::<G>(&args),
             "info" => {
                 println!(
                     "{{\"rig\":\"{}\",\"components\":{},\"resources\":{},\"shapes\":{},\"queries\":{},\"alloc_tracking\":{}}}",
@@ -159,4 +161,40 @@ fn trace_history<G: ParRig>(hseed: u64, profile: &seq::Profile, nops: usize) {
     }
     h.finish();
     println!("TRACE-END violations={}", h.viols.len());
+}
+
+fn deser_main<G: ParRig>(args: &Args) {
+    let seed = args.u64("seed", 1);
+    let run = crate::alloc::tracked(|| crate::deser::run::<G>(
+        seed,
+        args.u64("worlds", 20) as usize,
+        args.u64("mutants", 40) as usize,
+        args.u64("exhaustive", 1) as usize,
+        args.u64("followup", 30) as usize,
+    ));
+    let mut j = serde_json::to_value(&run.stats).unwrap();
+    let o = j.as_object_mut().unwrap();
+    o.insert("monitor".into(), "deser".into());
+    o.insert("rig".into(), G::NAME.into());
+    o.insert("seed".into(), seed.into());
+    o.insert("samples".into(), serde_json::to_value(&run.samples).unwrap());
+    o.insert("sigs_set".into(), serde_json::to_value(run.sigs()).unwrap());
+    o.insert("violations".into(), serde_json::to_value(&run.violations_json()).unwrap());
+    o.insert("replay".into(), serde_json::to_value(&run.first_failing_input).unwrap());
+    write_out(&args.str("out", "-"), &j.to_string());
+}
+
+fn faults_main<G: ParRig>(args: &Args) {
+    let seed = args.u64("seed", 1);
+    let skip: Vec<String> = args.str("skip", "").split(';').filter(|s| !s.is_empty()).map(|s| s.to_string()).collect();
+    // worker threads of the rayon pools are always tracked; keep the main thread consistent
+    let run = crate::alloc::tracked(|| crate::faults::run::<G>(seed, args.u64("worlds", 3) as usize, args.u64("max-k", 64), &skip, args.u64("op-limit", 0) as usize, args.u64("scene-ops", 14) as usize));
+    let mut j = serde_json::to_value(&run.stats).unwrap();
+    let o = j.as_object_mut().unwrap();
+    o.insert("monitor".into(), "faults".into());
+    o.insert("rig".into(), G::NAME.into());
+    o.insert("seed".into(), seed.into());
+    o.insert("samples".into(), serde_json::to_value(&run.samples).unwrap());
+    o.insert("violations".into(), serde_json::to_value(&run.viols).unwrap());
+    write_out(&args.str("out", "-"), &j.to_string());
 }
